@@ -97,8 +97,12 @@ type Opts struct {
 	WithCeremony      bool
 	Ipfs              ipfs.Proxy // shared content store (the "network")
 	Network           types.Network
-	Debug             bool // cfg.IsDebug (the bundled WASM test contracts import env.debug)
+	Debug             bool   // cfg.IsDebug (the bundled WASM test contracts import env.debug)
+	GenesisEdit       string // name of a registered genesis-state edit (GenesisEdits), applied when the genesis is generated
 }
+
+// GenesisEdits: named edits of the genesis state (a name, not a func: options travel to worker processes).
+var GenesisEdits = map[string]func(*appstate.AppState){}
 
 func DefaultConsensus() *config.ConsensusConf {
 	c := *blockchain.GetDefaultConsensusConfig()
@@ -200,6 +204,7 @@ func New(o Opts, db dbm.DB) (*Replica, error) {
 		r.Ceremony = ceremony.NewValidationCeremony(r.App, r.Bus, r.Flipper, r.Sec, db, r.Pool, r.Chain, noSync{}, r.KeysPool, cfg)
 	}
 	// StartWithHeight sequence
+	blockchain.VerifGenesisEdit = GenesisEdits[o.GenesisEdit]
 	if err := r.Chain.InitializeChain(); err != nil {
 		return nil, fmt.Errorf("InitializeChain: %w", err)
 	}
